@@ -15,8 +15,16 @@ from pv import detsched, gen
 def run_ls(case, algo, params, sched_seed, bias=None, choices=None, budget=None, cost_style="dict"):
     dcop = gen.build_dcop(case, cost_style)
     detsched.seed_algo_rngs(sched_seed)
-    comps, graph, algodef = detsched.build_computations(algo, dcop, params=params)
     pool = detsched.Pool(sched_seed, choices=choices)
+    try:
+        comps, graph, algodef = detsched.build_computations(algo, dcop, params=params)
+    except Exception as e:  # building the computations is part of what is observed
+        import traceback
+
+        pool.errors.append(("build_computation", "%s: %s" % (type(e).__name__, e), traceback.format_exc()[-2500:]))
+        return {"status": "error", "pool": pool, "comps": {}, "cuts": {}, "go": set(), "accept": set(), "gains": {},
+                "kinds": {}, "aligned_instants": 0, "fin_cycle": {}, "budget": 0,
+                "bias": {"bias": pool.bias, "target": None, "late_until": 0}, "value_calls": []}
     rng = _r.Random(sched_seed * 7919 + 1)
     names = [c.name for c in comps]
     if bias is None:
